@@ -565,6 +565,7 @@ class Translator:
                     for pb in self.uni.external_bases(self.cname):
                         for a in EXTERNAL_FIT_WRITES.get(pb, []):
                             out.append(("atom", ("wattr", a, [], "external")))
+                            out.append(("atom", ("bindFresh", "self." + a)))     # rebound to a new object by the parent
                 return out
             # Parent.method(self, ...)
             if isinstance(recv, ast.Name) and call.args and isinstance(call.args[0], ast.Name) \
@@ -580,6 +581,7 @@ class Translator:
                     if f.attr in ("fit", "fit_transform", "fit_predict"):
                         for a in EXTERNAL_FIT_WRITES.get(recv.id, []):
                             out.append(("atom", ("wattr", a, [], "external")))
+                            out.append(("atom", ("bindFresh", "self." + a)))     # rebound to a new object by the parent
                     return out
             # ClassName.static(...)
             if isinstance(recv, ast.Name) and recv.id in self.uni.classes:
